@@ -170,9 +170,12 @@ def feeding_calls(fa, expr, at, name, _seen=None):
 # walks whose branch decisions agree with each other
 # =================================================================================================
 
-def _sig(fa, t, at):
-    """By which definitions the names of the test `t` are bound at node `at`."""
-    return frozenset((v, frozenset(d.node for d in fa.df.reaching(at, v))) for v in {x.id for x in ast.walk(t) if isinstance(x, ast.Name)})
+def _sig(fa, t, at, last=None):
+    """By which definitions the names of the test `t` are bound at node `at` (`last`: the one definition a walk passed
+    last, for the names it keeps track of)."""
+    last = last or {}
+    return frozenset((v, frozenset([last[v]]) if v in last else frozenset(d.node for d in fa.df.reaching(at, v)))
+                     for v in {x.id for x in ast.walk(t) if isinstance(x, ast.Name)})
 
 
 def _opened(fa, t, at):
@@ -189,19 +192,19 @@ def _opened(fa, t, at):
     return t
 
 
-def _known(fa, t, at, facts, sig=None):
+def _known(fa, t, at, facts, sig=None, last=None):
     """Three-valued reading of the test `t` (at node `at`) under the branch facts {literal text: (polarity, sig)}
     established earlier on the walk; a fact counts only when the names of its test were bound by the same definitions
     as they are here.  True / False / None (not decided by the facts)."""
     if isinstance(t, ast.Constant):
         return bool(t.value)
-    sig = _sig(fa, t, at) if sig is None else sig
+    sig = _sig(fa, t, at, last) if sig is None else sig
     t = _opened(fa, t, at)
     if isinstance(t, ast.UnaryOp) and isinstance(t.op, ast.Not):
-        v = _known(fa, t.operand, at, facts, sig if getattr(t, "_no_expand", False) else None)
+        v = _known(fa, t.operand, at, facts, sig if getattr(t, "_no_expand", False) else None, last)
         return None if v is None else not v
     if isinstance(t, ast.BoolOp):
-        vs = [_known(fa, v, at, facts, sig if getattr(t, "_no_expand", False) else None) for v in t.values]
+        vs = [_known(fa, v, at, facts, sig if getattr(t, "_no_expand", False) else None, last) for v in t.values]
         dom = isinstance(t.op, ast.Or)      # one disjunct true / one conjunct false decides
         if any(v is dom for v in vs):
             return dom
@@ -213,16 +216,16 @@ def _known(fa, t, at, facts, sig=None):
     return f[0] == pol
 
 
-def _facts_of(fa, t, at, positive, sig=None):
+def _facts_of(fa, t, at, positive, sig=None, last=None):
     """[(literal text, polarity, sig)] established by taking the test `t` with the given polarity (a conjunction
     taken true / a disjunction taken false splits into its parts)."""
-    sig = _sig(fa, t, at) if sig is None else sig
+    sig = _sig(fa, t, at, last) if sig is None else sig
     t = _opened(fa, t, at)
     sub = sig if getattr(t, "_no_expand", False) else None
     if isinstance(t, ast.UnaryOp) and isinstance(t.op, ast.Not):
-        return _facts_of(fa, t.operand, at, not positive, sub)
+        return _facts_of(fa, t.operand, at, not positive, sub, last)
     if isinstance(t, ast.BoolOp) and ((isinstance(t.op, ast.And) and positive) or (isinstance(t.op, ast.Or) and not positive)):
-        return [f for v in t.values for f in _facts_of(fa, v, at, positive, sub)]
+        return [f for v in t.values for f in _facts_of(fa, v, at, positive, sub, last)]
     text, pol = fa._literal(t, at, positive)
     return [(text, pol, sig)]
 
@@ -353,34 +356,57 @@ class _Bound:
         self._consts = {}
         self._exprs = {}
         self.sentinels = private_sentinels(fa)
+        # the locals kept track of: those a branch test reads, and those copied into them
+        names = set()
+        for nd in fa.cfg.nodes:
+            if nd.kind == "test" and nd.ast is not None:
+                names |= {x.id for x in ast.walk(nd.ast) if isinstance(x, ast.Name)}
+        grew = True
+        while grew:
+            grew = False
+            for ds in fa.df.gen.values():
+                for d in ds:
+                    if d.name in names and d.kind == "assign" and isinstance(d.value, ast.Name) and d.value.id not in names:
+                        names.add(d.value.id)
+                        grew = True
+        self.names = names
+
+    @staticmethod
+    def last(binds):
+        return {k: node for (k, _kind, _x, node) in binds}
 
     def after(self, n, binds):
         ds = self.fa.df.gen.get(n, [])
         if not ds:
+            return binds
+        if not any(d.name in self.names for d in ds):
             return binds
         cur = {k: v for (k, *v) in binds}
         new = dict(cur)
         for d in ds:
             new.pop(d.name, None)
             for k in [k for k, v in new.items() if v[0] == "alias" and v[1] == d.name]:
-                new.pop(k)
+                new[k] = ["def", 0, new[k][2]]
         for d in ds:
+            if d.name not in self.names:
+                continue
             v = d.value
+            new[d.name] = ["def", 0, n]
             if v is None:
                 continue
             if d.kind == "assign" and len(ds) == 1 and isinstance(v, ast.Name) and v.id != d.name:
-                new[d.name] = cur.get(v.id) or ["alias", v.id]
+                new[d.name] = list(cur[v.id][:2]) + [n] if v.id in cur and cur[v.id][0] != "def" else ["alias", v.id, n]
                 continue
             if d.kind == "assign" and len(ds) == 1 and isinstance(v, ast.Call):
                 if id(v) not in self._consts:
                     self._consts[id(v)] = constant_fields(self.fa, v)
                 if self._consts[id(v)]:
-                    new[d.name] = ["record", id(v)]
+                    new[d.name] = ["record", id(v), n]
                     continue
-            if self.sentinels and d.kind in ("assign", "unpack"):
-                self._exprs[id(v)] = v
-                new[d.name] = ["value", id(v)]
-        return frozenset((k, v[0], v[1]) for k, v in new.items())
+            if d.kind in ("assign", "unpack"):
+                self._exprs[id(v)] = (v, d.kind == "assign" and len(ds) == 1, n)
+                new[d.name] = ["value", id(v), n]
+        return frozenset((k, v[0], v[1], v[2]) for k, v in new.items())
 
     def _identical(self, x, s, cur):
         """Is the local `x` the sentinel `s` on this walk?  True / False / None."""
@@ -392,12 +418,12 @@ class _Bound:
         if kind == "record":
             return False
         if kind == "value":
-            return False if _cannot_be(self.fa, self._exprs[what], s) else None
+            return False if _cannot_be(self.fa, self._exprs[what][0], s) else None
         return None
 
     def resolve(self, t, binds):
         """The test `t` with what the walk knows about its locals written in."""
-        cur = {k: (kind, x) for (k, kind, x) in binds}
+        cur = {k: (kind, x) for (k, kind, x, _node) in binds}
         names = {n.id for n in ast.walk(t) if isinstance(n, ast.Name)}
         if not (names & (set(cur) | self.sentinels)):
             return t
@@ -425,8 +451,17 @@ class _Bound:
                 return n
 
             def visit_Name(self, n):
-                if isinstance(n.ctx, ast.Load) and cur.get(n.id, ("", 0))[0] == "alias":
-                    return ast.copy_location(ast.Name(id=cur[n.id][1], ctx=ast.Load()), n)
+                kind, what = cur.get(n.id, ("", 0))
+                if isinstance(n.ctx, ast.Load) and kind == "alias":
+                    return ast.copy_location(ast.Name(id=what, ctx=ast.Load()), n)
+                if isinstance(n.ctx, ast.Load) and kind == "value" and me._exprs[what][1]:
+                    # the one plain assignment this walk passed last: the name stands for what was assigned (as it does
+                    # for FA.expand where that assignment is the only one reaching)
+                    e, _plain, at = me._exprs[what]
+                    try:
+                        return ast.copy_location(me.fa.expand(e, at), n)
+                    except (AnalysisError, RecursionError):
+                        return n
                 return n
         import copy
         return ast.fix_missing_locations(T().visit(copy.deepcopy(t)))
@@ -469,10 +504,11 @@ def consistent_walk(fa, targets, via=None, avoid=(), cap=60000):
                 new = frozenset()
             elif nd.kind == "test" and nd.ast is not None and l in ("T", "F"):
                 test = bound.resolve(nd.ast, binds2)
+                last = bound.last(binds2)
                 facts = {t: (pol, g) for (t, pol, g) in lits}
-                if _known(fa, test, n, facts) is (l != "T"):
+                if _known(fa, test, n, facts, None, last) is (l != "T"):
                     continue
-                for (t, pol, g) in _facts_of(fa, test, n, l == "T"):
+                for (t, pol, g) in _facts_of(fa, test, n, l == "T", None, last):
                     facts[t] = (pol, g)
                 new = frozenset((t, pol, g) for (t, (pol, g)) in facts.items())
             nxt = (d, after, new, binds2)
@@ -1028,7 +1064,7 @@ def _r1_run_local(ck, R1):
     looked_up = {id(e): c for (e, c, recv, _k) in single_lookups(ck, rl) if rl.xnorm(recv, rl.nodes(c)[0]) == "storage_backend"}
 
     def stored(e, at):
-        lv = origins(rl, e, at)
+        lv = [(x, n) for (x, n) in origins(rl, e, at) if not A.is_none(x)]      # "nothing stored" is not adopted under a test of the value
         return bool(lv) and all(id(x) in looked_up for (x, _n) in lv)
     asg = []
     for (st, t, vals) in field_stores(rl):
